@@ -10,6 +10,7 @@ routes, crystal<->sample rotation is U.T.U^T / U^T.T.U.
 Not decided: objectivity and exactness for known stretches (need SVD semantics), first-order agreement across m.
 """
 import ast
+import re
 
 import numpy as np
 
@@ -42,6 +43,8 @@ def run(R):
             r1(R, M)
         if R.want("C10.R4"):  # structural, first: a violation found here outranks an interpreter failure in R2 / R3
             r4(R, M)
+        if R.want("C10.R5"):
+            r5(R, M)
         if R.want("C10.R2"):
             r2(R, M)
         if R.want("C10.R3"):
@@ -312,3 +315,35 @@ def r4(R, M):
     I.call("tensor_map", "tensor_sample_to_crystal", T, U, r2_)
     ok, why = vn_py.same(r2_, np.dot(U.T, np.dot(T, U)))
     R.check(ok, "C10.R4", TM, tm.func("tensor_sample_to_crystal").lineno, "tensor_sample_to_crystal", "U^T . T . U", why)
+
+
+def r5(R, M):
+    R.rule("C10.R5", "TensorMap frame conversions: a tensor map is rotated with the function whose source frame is the frame the map is in - "
+                     "eps_sample derives from eps_crystal through tensor_crystal_to_sample(eps_crystal, U), eps_crystal from eps_sample through "
+                     "tensor_sample_to_crystal(eps_sample, U) (likewise for the stress maps); so the result does not depend on which of the two "
+                     "was asked for first")
+    tm = M["tensor_map"]
+    frame_of = {"tensor_crystal_to_sample": "crystal", "tensor_sample_to_crystal": "sample"}
+    n = 0
+    for q, fn in tm.funcs.items():
+        if not q.startswith("TensorMap."):
+            continue
+        for c in ast.walk(fn):
+            if not (isinstance(c, ast.Call) and (pyfacts.dotted(c.func) or "").split(".")[-1] in frame_of and c.args):
+                continue
+            fname = (pyfacts.dotted(c.func) or "").split(".")[-1]
+            arg = pyfacts.resolved_src(fn, c.args[0], 2, keep=("self",))
+            frames = set(re.findall(r"(?:eps|sig|stress|strain)\w*_(crystal|sample|lab)\b", arg)) | set(re.findall(r"\b(crystal|sample)_(?:eps|sig|stress|strain)", arg))
+            frames = set("sample" if f_ == "lab" else f_ for f_ in frames)
+            if len(frames) != 1:
+                continue        # the frame of the argument is not visible in its name: nothing to compare
+            n += 1
+            have = list(frames)[0]
+            R.check(frame_of[fname] == have, "C10.R5", TM, c.lineno, q, "%s(%s, ...)" % (fname, arg[:40]),
+                    "a map in the %s frame is rotated with %s, which expects a %s-frame tensor: the result is U^T.e.U where U.e.U^T was "
+                    "meant (or the reverse) - it differs from the directly computed map by O(strain)" % (have, fname, frame_of[fname]))
+            # the rotation used is the grain orientation of the same map
+            R.check(len(c.args) >= 2 and src(c.args[1]) in ("self.U",), "C10.R5", TM, c.lineno, q, "rotation argument %s" % (src(c.args[1]) if len(c.args) > 1 else None),
+                    "the tensor is not rotated with the orientation U of the same voxels")
+    if n < 2:
+        R.fail("C10.R5 found %d frame conversions in TensorMap whose argument names its frame, expected at least 2" % n)
